@@ -163,6 +163,48 @@ impl IoLoopHandle {
     }
 }
 
+// Verification hooks: the two halves of a call, without blocking.
+#[cfg(amiquip_verif)]
+impl IoLoopHandle {
+    pub(super) fn verif_try_send(&mut self, message: IoLoopMessage) -> bool {
+        self.tx.try_send(message).is_ok()
+    }
+
+    pub(super) fn verif_try_recv(
+        &mut self,
+    ) -> StdResult<Result<ChannelMessage>, crossbeam_channel::TryRecvError> {
+        self.rx.try_recv()
+    }
+
+    pub(super) fn verif_make_buf<M: IntoAmqpClass>(&mut self, method: M) -> OutputBuffer {
+        self.make_buf(method)
+    }
+}
+
+#[cfg(amiquip_verif)]
+impl IoLoopHandle0 {
+    pub(super) fn verif_common(&mut self) -> &mut IoLoopHandle {
+        &mut self.common
+    }
+
+    pub(super) fn verif_try_send_alloc(&mut self, channel_id: Option<u16>) -> bool {
+        self.alloc_chan_req_tx.try_send(channel_id).is_ok()
+    }
+
+    pub(super) fn verif_try_recv_alloc(
+        &mut self,
+    ) -> StdResult<Result<IoLoopHandle>, crossbeam_channel::TryRecvError> {
+        self.alloc_chan_rep_rx.try_recv()
+    }
+
+    pub(super) fn verif_try_send_set_blocked(
+        &mut self,
+        tx: CrossbeamSender<ConnectionBlockedNotification>,
+    ) -> bool {
+        self.set_blocked_tx.try_send(tx).is_ok()
+    }
+}
+
 pub(super) struct IoLoopHandle0 {
     common: IoLoopHandle,
     set_blocked_tx: MioSyncSender<CrossbeamSender<ConnectionBlockedNotification>>,
